@@ -168,18 +168,32 @@ pub fn %s(t: Thing) -> Thing { t }
 """
 
 
-def make_prec_sandbox(root, file_settings, delivery="tauri_conf"):
-    for rel, cmd in (("src-tauri", "cmd_default"), ("projA", "cmd_a"), ("projB", "cmd_b")):
-        rustgen.write_project(root, {rel + "/src/lib.rs": PROJ_SRC % cmd})
+# how the directories behind the abstract values A / B / missing are spelled: a path is a path whatever its last
+# component looks like (dots, several dots, nesting, a trailing slash)
+PATH_SHAPES = [
+    {"pA": "./projA", "pB": "./projB", "oA": "./outA", "oB": "./outB", "miss": "./nope"},
+    {"pA": "./proj.v2", "pB": "./proj.v3", "oA": "./out.d", "oB": "./out.e", "miss": "./nope.v2"},
+    {"pA": "./com.example.app", "pB": "./com.example.other", "oA": "./gen.ts", "oB": "./gen.d.ts", "miss": "./missing.conf.json"},
+    {"pA": "./nested/dir.d/projA", "pB": "./nested/dir.d/projB", "oA": "./web/src.gen/outA", "oB": "./web/src.gen/outB", "miss": "./nested/dir.d/nope"},
+    {"pA": "./projA/", "pB": "projB", "oA": "outA/", "oB": ".//outB/", "miss": "nope/"},
+]
+
+
+def make_prec_sandbox(root, file_settings, delivery="tauri_conf", shape=0):
+    sh = PATH_SHAPES[shape]
+    for rel, cmd in (("src-tauri", "cmd_default"), (sh["pA"], "cmd_a"), (sh["pB"], "cmd_b")):
+        rustgen.write_project(root, {os.path.normpath(rel) + "/src/lib.rs": PROJ_SRC % cmd})
+    # a stray command beside the projects: it must never show up in any bindings
+    rustgen.write_project(root, {"stray.rs": PROJ_SRC % "cmd_stray"})
     tg = {}
     m = {"project": "projectPath", "output": "outputPath", "library": "validationLibrary", "verbose": "verbose", "force": "force"}
     for s, v in file_settings.items():
         if v == "absent":
             continue
         if s == "project":
-            tg[m[s]] = {"A": "./projA", "B": "./projB", "missing": "./projA/src/lib.rs/inner" if (sum(map(ord, json.dumps(file_settings, sort_keys=True))) % 2) else "./nope"}[v]
+            tg[m[s]] = {"A": sh["pA"], "B": sh["pB"], "missing": os.path.normpath(sh["pA"]) + "/src/lib.rs/inner" if (sum(map(ord, json.dumps(file_settings, sort_keys=True))) % 2) else sh["miss"]}[v]
         elif s == "output":
-            tg[m[s]] = {"A": "./outA", "B": "./outB"}[v]
+            tg[m[s]] = {"A": sh["oA"], "B": sh["oB"]}[v]
         elif s == "library":
             tg[m[s]] = v
         else:
@@ -197,13 +211,14 @@ def make_prec_sandbox(root, file_settings, delivery="tauri_conf"):
         json.dump(doc, f, indent=2)
 
 
-def flags_args(flags):
+def flags_args(flags, shape=0):
+    sh = PATH_SHAPES[shape]
     a = []
     if flags["project"] != "absent":
-        a += ["-p", {"A": "./projA", "missing": "./projB/src/lib.rs/inner" if (sum(map(ord, json.dumps(flags, sort_keys=True))) % 2) else "./nope",
+        a += ["-p", {"A": sh["pA"], "missing": os.path.normpath(sh["pB"]) + "/src/lib.rs/inner" if (sum(map(ord, json.dumps(flags, sort_keys=True))) % 2) else sh["miss"],
                      "D": "./src-tauri"}[flags["project"]]]
     if flags["output"] != "absent":
-        a += ["-o", {"A": "./outA", "D": "./src/generated"}[flags["output"]]]
+        a += ["-o", {"A": sh["oA"], "D": "./src/generated"}[flags["output"]]]
     if flags["library"] != "absent":
         a += ["-v", flags["library"]]
     if flags["verbose"] == "true":
@@ -213,23 +228,30 @@ def flags_args(flags):
     return a
 
 
-def observe_prec(root, flags, filev, delivery="tauri_conf"):
-    make_prec_sandbox(root, filev, delivery)
+def observe_prec(root, flags, filev, delivery="tauri_conf", shape=0):
+    make_prec_sandbox(root, filev, delivery, shape)
+    sh = PATH_SHAPES[shape]
     before = pipeline.tree_hashes(root)
-    args = ["generate"] + flags_args(flags) + (["-c", "typegen.json"] if delivery == "standalone" else [])
+    args = ["generate"] + flags_args(flags, shape) + (["-c", "typegen.json"] if delivery == "standalone" else [])
     r1 = runner.cli(args, root)
     after1 = pipeline.tree_hashes(root)
     rejected = r1.rc != 0
     mutated = after1 != before
     obs = {"project": "none", "output": "none", "library": "none", "verbose": "false", "force": "false"}
     if not rejected:
-        outs = {"default": "src/generated", "A": "outA", "B": "outB"}
+        outs = {"default": "src/generated", "A": os.path.normpath(sh["oA"]), "B": os.path.normpath(sh["oB"])}
         got = [k for k, rel in outs.items() if os.path.isfile(os.path.join(root, rel, "commands.ts"))]
+        # bindings anywhere else in the sandbox are an output path nobody asked for
+        stray = [os.path.relpath(os.path.join(b_, f), root) for b_, _, fs in os.walk(root) for f in fs
+                 if f == "commands.ts" and os.path.relpath(b_, root) not in outs.values()]
+        if stray:
+            got.append("elsewhere:" + stray[0])
         obs["output"] = got[0] if len(got) == 1 else ("none" if not got else "+".join(sorted(got)))
         if len(got) >= 1:
             odir = os.path.join(root, outs[got[0]])
             ctext = open(os.path.join(odir, "commands.ts")).read()
-            obs["project"] = "A" if "'cmd_a'" in ctext else "B" if "'cmd_b'" in ctext else "default" if "'cmd_default'" in ctext else "none"
+            which = [k for k, mark in (("A", "'cmd_a'"), ("B", "'cmd_b'"), ("default", "'cmd_default'"), ("stray", "'cmd_stray'")) if mark in ctext]
+            obs["project"] = which[0] if len(which) == 1 else ("none" if not which else "+".join(which))
             obs["library"] = "zod" if "Generator: zod" in ctext else "none" if "Generator: none" in ctext else "?"
             obs["verbose"] = "true" if "Analyzing file" in r1.out else "false"
             m1 = {n: os.stat(os.path.join(odir, n)).st_mtime_ns for n in os.listdir(odir) if n.endswith(".ts")}
@@ -282,21 +304,26 @@ def part_b(d, tier, seed):
     allc = combos + rej
 
     def work(ic):
-        i, (c, delivery) = ic
-        o = observe_prec(os.path.join(d, "prec-%d" % i), c["flags"], c["file"], delivery)
-        return {"event": "Precedence", "case": "prec%d/%s" % (i, delivery), "flags": c["flags"], "file": c["file"], "delivery": delivery,
+        i, (c, delivery, shape) = ic
+        o = observe_prec(os.path.join(d, "prec-%d" % i), c["flags"], c["file"], delivery, shape)
+        return {"event": "Precedence", "case": "prec%d/%s/paths%d" % (i, delivery, shape), "flags": c["flags"], "file": c["file"], "delivery": delivery, "paths": shape,
                 "rejected": o["rejected"], "mutated": o["mutated"], "observed": o["observed"]}
     # the file settings reach the tool through plugins.typegen of a discovered tauri.conf.json or through a stand-alone
     # file given with -c (where an unmentioned setting is ABSENT, not defaulted): every case of the deterministic
     # families both ways, the sampled rest alternating
     ndet = len(allc) - len(rej) - (200 if tier == "quick" else 0)
     jobs = []
+    # ... and every case of the deterministic families that names a project or output directory under every path
+    # spelling (PATH_SHAPES); the rest rotate through the spellings
+    def names_dir(c):
+        return any(c[w][s_] not in ("absent", "D") for w in ("flags", "file") for s_ in ("project", "output"))
     for i, c in enumerate(allc):
         if tier == "quick" and i < max(ndet, 0):
-            jobs.append((c, "tauri_conf"))
-            jobs.append((c, "standalone"))
+            for shape in (range(len(PATH_SHAPES)) if names_dir(c) else (0,)):
+                jobs.append((c, "tauri_conf", shape))
+                jobs.append((c, "standalone", shape))
         else:
-            jobs.append((c, "standalone" if i % 2 else "tauri_conf"))
+            jobs.append((c, "standalone" if i % 2 else "tauri_conf", i % len(PATH_SHAPES)))
     with ThreadPoolExecutor(max_workers=12) as ex:
         evs = list(ex.map(work, enumerate(jobs)))
     return evs, total, len(rej)
